@@ -434,11 +434,16 @@ pub struct Dest {
     /// per write call: max bytes accepted (0 = Interrupted once); exhausted → accept all
     pub policy: Vec<usize>,
     pub pi: usize,
+    /// every write call (after the policy is exhausted) accepts at most this many bytes
+    pub cap_all: Option<usize>,
 }
 
 impl Dest {
     pub fn with_policy(p: Vec<usize>) -> Dest {
         Dest { policy: p, ..Default::default() }
+    }
+    pub fn capped(n: usize) -> Dest {
+        Dest { cap_all: Some(n), ..Default::default() }
     }
 }
 
@@ -448,7 +453,7 @@ impl Write for Dest {
         if buf.is_empty() {
             return Ok(0);
         }
-        let lim = if self.pi < self.policy.len() { self.policy[self.pi] } else { usize::MAX };
+        let lim = if self.pi < self.policy.len() { self.policy[self.pi] } else { self.cap_all.unwrap_or(usize::MAX) };
         self.pi += 1;
         if lim == 0 {
             return Err(io::Error::new(io::ErrorKind::Interrupted, "interrupted"));
